@@ -11,7 +11,7 @@ def prop( pid, rules, decides, not_decided, technique, thorough_rules=(), assump
                        assumptions=list( assumptions ))
 
 
-prop( 'C05', [ 'S-STATUS', 'D-VALIDATE', 'W-ATTR', 'T-ALLOWED' ],
+prop( 'C05', [ 'S-STATUS', 'D-VALIDATE', 'W-ATTR', 'T-ALLOWED', 'T-TYPENAMES', 'K-KEYPASS' ],
       decides='S-STATUS: typestate of data.status over the statement CFG of every CIP request handler - at every statement inside '
               'the try that may raise, the status is a known non-success constant (so a refused request is answered with a failure), '
               'the handler never re-raises or resets it, and at the named program points of Logix.request the codes are 0x05 (resolve/lookup), '
@@ -23,7 +23,7 @@ prop( 'C05', [ 'S-STATUS', 'D-VALIDATE', 'W-ATTR', 'T-ALLOWED' ],
               'functions that can mutate an Attribute is reachable only for write services (service feasibility by folding the '
               'dispatch tests).  T-ALLOWED: every cell of the Logix write type-compatibility table admits only request types whose whole value '
               'range is contained in the tag type\'s range (interval containment over the struct formats), so an acknowledged '
-              'write can always be re-encoded by the tag\'s type.',
+              'write can always be re-encoded by the tag\'s type.  D-VALIDATE also: the element-count default is selected by presence ( .get( \'elements\', default )), never by truthiness.  T-TYPENAMES: each configurable tag type\'s default is the zero of the Python type its format packs (assignments are coerced with type( default )).  K-KEYPASS as for C03.',
       not_decided='that values read back equal the converted values written (value/history dependent).',
       technique='constant typestate on a statement CFG with exception edges; dominance / must-pass-through with correlated branches; service feasibility by test folding; table interval containment' )
 
@@ -62,7 +62,7 @@ prop( 'C20', [ 'T-TNET', 'P-CHAIN', 'G-CHUNK', 'G-REF' ],
       not_decided='value round trip for all values, nesting depth, chunking (dynamic).',
       technique='encoder/decoder idiom classification over dispatch chains (AST pattern matching); grammar extraction' )
 
-prop( 'C03', [ 'W-ATTR', 'D-VALIDATE', 'R-SNAPSHOT', 'D-TYPE', 'T-TYPENAMES', 'T-ATTRKEYS', 'T-SYMBOL' ],
+prop( 'C03', [ 'W-ATTR', 'D-VALIDATE', 'R-SNAPSHOT', 'D-TYPE', 'T-TYPENAMES', 'T-ATTRKEYS', 'T-SYMBOL', 'D-PATHSTOP', 'K-KEYPASS' ],
       decides='storage-discipline clauses only.  W-ATTR: tags are mutated only by statements reachable for the write services '
               '(Write Tag, Write Tag Fragmented, Set Attribute Single) - no read service and no refused request changes a tag; '
               'D-VALIDATE: the tag store is dominated by type and range validation, the stored slice is the validated (beg,end), the write-capacity '
@@ -72,11 +72,11 @@ prop( 'C03', [ 'W-ATTR', 'D-VALIDATE', 'R-SNAPSHOT', 'D-TYPE', 'T-TYPENAMES', 'T
               'R-SNAPSHOT: element ranges are read and written by one list operation and produce() iterates a slice copy; '
               'D-TYPE: the read reply\'s .type/.structure_tag come from the tag\'s own parser and the data from attribute[beg:end]; '
               'T-TYPENAMES: every configurable type name creates the parser class of that name with a zero/empty default of the Python type its '
-              'struct format packs.',
+              'struct format packs.  D-PATHSTOP: the early-exit test of device.resolve and its default-attribute rule equal the specified tables on all 48 + 6 cells of class x instance x attribute x mode x segment-kind (evaluated).  K-KEYPASS: every Attribute subclass overriding __getitem__/__setitem__ hands the key it received unchanged to the inherited accessor (the end-of-tag check reads the raw key).',
       not_decided='read-your-writes over request histories, slice index arithmetic, symbolic-name resolution, per-element isolation (value/history dependent).',
       technique='who-may-write analysis via service feasibility on the CFG; AST shape checks; table checks' )
 
-prop( 'C06', [ 'X-SERVICES', 'P-REPLYBIT', 'P-ONE', 'P-PROCEED', 'D-ECHO', 'S-STATUS' ],
+prop( 'C06', [ 'X-SERVICES', 'P-REPLYBIT', 'P-ONE', 'P-PROCEED', 'D-ECHO', 'S-STATUS', 'P-ROUTE' ],
       decides='X-SERVICES: for Object, Message_Router, Connection_Manager and Logix the registered service parsers, the services '
               'request() dispatches and the services produce() encodes agree, and every *_RPY constant is *_REQ | 0x80; '
               'P-REPLYBIT: on every path of every handler to the reply producer the reply bit is set at most once, exactly once on '
@@ -87,7 +87,7 @@ prop( 'C06', [ 'X-SERVICES', 'P-REPLYBIT', 'P-ONE', 'P-PROCEED', 'D-ECHO', 'S-ST
               'returns True on every normal exit after producing data.enip.input (no implicit None, which the server loop reads as "send nothing, end the '
               'session"), proceed starts True and is cleared only by Unregister, and nothing before that can raise; D-ECHO: the response is built as a structural copy of the request encapsulation, no '
               'server-side store to sender_context/command/options, session_handle only in the Register branch (re-drawn while zero/in use), '
-              'Unregister sets proceed False and stores no payload; S-STATUS: any exception below UCMM ends as a non-zero status, never escapes.',
+              'Unregister sets proceed False and stores no payload; S-STATUS: any exception below UCMM ends as a non-zero status, never escapes.  P-ONE also: the payload sent is exactly this iteration\'s enip_encode result (no accumulated buffer) and every normal path from a truthy enip_process to the next iteration passes the send.  P-ROUTE: the try whose handler deletes the shared route connection and re-raises encloses the routed send, the wait and both checks of the response (present, status 0).',
       not_decided='framing of reply values, randomness of session handles, socket-level pipelining behaviour (dynamic).',
       technique='sibling exhaustiveness (set comparison of folded constants); path effect counting on the CFG; must-pass-through; zero-count store rules' )
 
@@ -175,7 +175,7 @@ prop( 'C11', [ 'X-LOOKUP', 'X-FROMREGEX', 'X-TERMINAL', 'G-PRIMS' ],
       technique='must-pass-through ordering over a statement CFG (lookup precedence); decision tables evaluated three-valued over '
                 'finite boolean domains; semantic evaluation of the ordering key; AST idioms with role-following wildcards' )
 
-prop( 'C02', [ 'G-CHUNK', 'G-FRAME', 'P-ACT', 'P-ONE', 'P-CHAIN', 'R-ISO', 'N-RECV', 'R-SENT', 'R-PROGRESS', 'G-PRIMS' ],
+prop( 'C02', [ 'G-CHUNK', 'G-FRAME', 'P-ACT', 'P-ONE', 'P-CHAIN', 'R-ISO', 'N-RECV', 'R-SENT', 'R-PROGRESS', 'G-PRIMS', 'E-CONTAIN' ],
       decides='G-CHUNK: in the stream-fed machines (enip_machine incl. enip_header; tnet_machine) no state has both an input edge and a '
               'None edge and no transition predicate inspects the source - i.e. no state\'s successor depends on whether the next byte has '
               'arrived yet (necessary for chunk independence); G-FRAME: the header sub-graph is the single unconditional chain of the six '
@@ -185,13 +185,13 @@ prop( 'C02', [ 'G-CHUNK', 'G-FRAME', 'P-ACT', 'P-ONE', 'P-CHAIN', 'R-ISO', 'N-RE
               'empty data and re-raises; the client returns a response only when its frame machine is terminal, drops its engine on any '
               'framing exception, ends silently only on EOF between frames and refuses to be released with a partial frame; R-SENT: net '
               '`sent` accounting of peeking/chaining (exactly one increment per delivered symbol on every path, FIFO chaining, LIFO '
-              'push-back, net-zero peek); R-PROGRESS: the three no-progress guards and NonTerminal.',
+              'push-back, net-zero peek); R-PROGRESS: the three no-progress guards and NonTerminal.  P-ACT also: client.__next__ (re)creates the data artifact only in the block that starts a new framing engine on it.  E-CONTAIN: the connection handler\'s finally removes the peer\'s stats entry and closes the socket on every exit (a session killed mid-frame must not leave an eof-marked entry that refuses the next session from the same address).',
       not_decided='that the generator protocol re-delivers the same parse for every partition of the stream (a semantic property of '
                   'state.run\'s interleaving of yields - needs execution); kernel/socket behaviour.',
       technique='grammar-graph extraction by abstract interpretation of the builder code + edge-kind analysis; path effect counting and '
                 'must-pass-through on the CFG; AST idiom matching on the framework loops' )
 
-prop( 'C07', [ 'A-OFFSETS', 'P-ORDER', 'P-EACH', 'P-CLOSURE', 'R-LOCK-5', 'R-LOCK-6', 'P-FRESH', 'S-RESOLVE', 'S-STATUS' ],
+prop( 'C07', [ 'A-OFFSETS', 'P-ORDER', 'P-EACH', 'P-CLOSURE', 'R-LOCK-5', 'R-LOCK-6', 'P-FRESH', 'P-BUNDLE', 'S-RESOLVE', 'D-PATHSTOP', 'S-STATUS' ],
       decides='A-OFFSETS: the two offset-table emitters of Message_Router.produce and the two slice bounds of the parser closure '
               'normalise (linear-expression normaliser) to 2 + 2*N relative to the running offset, the count field is the number of '
               'offsets, members are sliced between consecutive offsets (last to the end) and appended in order; P-ORDER: in both produce '
@@ -199,7 +199,7 @@ prop( 'C07', [ 'A-OFFSETS', 'P-ORDER', 'P-EACH', 'P-CLOSURE', 'R-LOCK-5', 'R-LOC
               'itself and dispatches each member exactly once per iteration, unconditionally, to the routed target; P-CLOSURE: on the '
               'no-exception path the member-parsing closure is posted (parser locked) xor run, exactly once, each member parsed under the '
               'target parser\'s lock and asserted terminal; S-STATUS: each request() converts its own exceptions to a status, so a failing '
-              'member cannot unwind the bundle loop.',
+              'member cannot unwind the bundle loop.  P-BUNDLE (client side): a bundle is extended only while route and send path equal the bundle\'s, and the paths are recorded whenever an operation is queued.  D-PATHSTOP: see C03.',
       not_decided='equality of each member\'s reply with its standalone reply, and of the resulting tag state (dynamic).',
       technique='linear normalisation of offset arithmetic; iteration/accumulation idiom pairing; per-iteration effect counting on the CFG' )
 
@@ -237,12 +237,12 @@ prop( 'C09', [ 'R-LOCK-1', 'R-LOCK-6', 'R-LOCK-2', 'R-LOCK-3', 'R-LOCK-4', 'R-LO
               'made) only under UCMM.lock; R-LOCK-4: every object construction, setup_tag call and setup.ucmm store of logix.setup is '
               'inside `with setup.lock`; R-LOCK-5: dfa_post keeps closures per thread ident, pops them under the lock and invokes them '
               'outside it, after super().__exit__ released it; dfa_base acquires/releases, run() checks safe(); R-ISO: per-connection '
-              'source/data/machine are locals created per call; R-SNAPSHOT: element ranges are read/written by single list operations.',
+              'source/data/machine are locals created per call; R-SNAPSHOT: element ranges are read/written by single list operations.  R-SNAPSHOT also: Logix.request moves the requested range by a single slice load / store on the tag, never in a loop.  R-LOCK-4 also: every return of logix.setup has passed through `with setup.lock` (no unlocked fast path).',
       not_decided='linearizability, absence of lost updates between two writers of the same elements, fairness (properties of histories/schedules).',
       technique='lock-set style who-holds-what rules over call sites (AST + dominance); field-to-lock tables',
       thorough_rules=[] )
 
-prop( 'C13', [ 'S-COMPLETE', 'P-MATCH', 'P-FRESH', 'P-BUNDLE', 'P-DISCARD', 'P-ACT', 'N-RECV', 'P-GATEWAY' ],
+prop( 'C13', [ 'S-COMPLETE', 'P-MATCH', 'P-FRESH', 'P-BUNDLE', 'P-DISCARD', 'P-ACT', 'N-RECV', 'P-GATEWAY', 'P-ROUTE' ],
       decides='S-COMPLETE (sibling cross-check): every harvesting driver operate() can return (synchronous, pipeline) compares, after its '
               'harvest loop, a counter fed by the issue stream with a counter fed by the harvested results and raises on a mismatch - so '
               'the client can never silently return fewer results than operations; P-MATCH: in harvest every yield is dominated by an assert '
@@ -269,7 +269,7 @@ prop( 'C15', [ 'B-ROUTE', 'D-REFUSE', 'C-MAIN', 'S-STATUS' ],
       not_decided='textual route-path parsing (string -> segments) over all strings.',
       technique='exhaustive evaluation of a boolean AST over a finite abstract domain (decision-table check); dominance on the CFG' )
 
-prop( 'C01', [ 'T-TYPES', 'L-AGREE', 'L-CODEC', 'T-SEGMENTS', 'T-NCP', 'A-OFFSETS', 'G-FRAME', 'L-SPEC', 'X-SERVICES', 'G-PRIMS' ],
+prop( 'C01', [ 'T-TYPES', 'L-AGREE', 'L-DEFAULT', 'L-CODEC', 'T-SEGMENTS', 'T-NCP', 'K-NCPSTATE', 'A-OFFSETS', 'G-FRAME', 'L-SPEC', 'X-SERVICES', 'G-PRIMS' ],
       decides='layout-agreement clauses.  T-TYPES: every CIP scalar class has the spec\'s (type code, width, signedness, little-endian byte order), '
               'TYPE.produce packs and state_struct unpacks with the class format, TYPES_SUPPORTED and the 14-row typed_data dispatch are '
               'consistent; L-AGREE: for each of the 24 registered service machines, every layout variant the producer branch can emit '
@@ -281,13 +281,13 @@ prop( 'C01', [ 'T-TYPES', 'L-AGREE', 'L-CODEC', 'T-SEGMENTS', 'T-NCP', 'A-OFFSET
               'address links, size in words, padded/single variants); T-NCP: Network Connection Parameter encode shifts = decode '
               'shifts/masks = spec bit-fields, Large = +16 bits; A-OFFSETS: bundle offset arithmetic is 2+2N on all four sides; G-FRAME: '
               'the 24-byte encapsulation header; L-SPEC: parser and reply-producer layouts equal the hand-written CIP spec layouts; '
-              'X-SERVICES: registered = dispatched = produced service sets.',
+              'X-SERVICES: registered = dispatched = produced service sets.  L-DEFAULT: in every produce() of the codec modules no numeric field is emitted through a truthiness default (`x or C` with C != 0, `x if x else C`, `if x: ... produce( x )`): 0 is a legal wire value, defaults are selected by presence.  K-NCPSTATE: typestate of defaults.Connection\'s coupled pair ( _NCP, _large ) - no decoding property is read between the stores of the two, and a method that stores one stores both.',
       not_decided='value-dependent behaviour inside a matching layout (string truncation/NUL fill, float NaN round trip, the is_uerr '
                   'look-ahead ambiguity), and that produced bytes re-parse equal for every value - a dynamic round-trip claim.',
       technique='layout IR extraction from both the grammar-construction code (abstract interpretation) and the produce() ASTs, sequence '
                 'acceptance matching; spec-table comparison; linear normalisation' )
 
-prop( 'C14', [ 'L-SPEC', 'K-FORWARDS', 'L-AGREE', 'L-CODEC', 'T-TYPES', 'T-SEGMENTS', 'T-NCP', 'A-OFFSETS', 'G-FRAME',
+prop( 'C14', [ 'L-SPEC', 'K-FORWARDS', 'L-AGREE', 'L-DEFAULT', 'L-CODEC', 'T-TYPES', 'T-SEGMENTS', 'T-NCP', 'K-NCPSTATE', 'A-OFFSETS', 'G-FRAME',
                'S-STATUS', 'D-VALIDATE', 'W-ATTR', 'T-ALLOWED', 'T-ATTRKEYS', 'D-TYPE', 'X-SERVICES', 'P-REPLYBIT' ],
       decides='spec-layout clause.  L-SPEC: for the messages an independent Logix client uses (Register Session, SendRRData/SendUnitData with '
               'null-address/unconnected and connection-id/connected-data items, Unconnected Send, Forward Open small and large, Forward '
